@@ -163,8 +163,12 @@ Step ==
            reset == e.op \in ResetOps
            h0 == IF reset THEN EmptyHist ELSE hist
            g0 == IF reset THEN 0 ELSE gprev
-           found == StateMon(e) \cup C04_Obs(h0, g0, e.S, e.obs)
-                    \cup (IF reset \/ l = 1 THEN {} ELSE EventMon(Rec[l-1], e))
+           \* after a panic the rest of that trace runs on a store that may be half-updated: the panic itself is judged (C12),
+           \* the later lines of the trace are not (their views and transitions describe garbage, and monitors written for
+           \* consistent stores could fail to evaluate, which would turn the verdict into a tool error)
+           found == IF dirty /\ ~reset THEN {}
+                    ELSE StateMon(e) \cup C04_Obs(h0, g0, e.S, e.obs)
+                         \cup (IF reset \/ l = 1 THEN {} ELSE EventMon(Rec[l-1], e))
        IN /\ viol' = viol \cup {<<l, m>> : m \in found}
           /\ base' = IF e.op = "Init" THEN l ELSE base
           /\ dirty' = IF e.op = "Init" THEN FALSE ELSE (dirty \/ e.res = "panic")
